@@ -84,6 +84,35 @@ def expr_formula(e, env=None, depth=0):  # noqa: C901, PLR0911
     if isinstance(e, ast.Call) and isinstance(e.func, ast.Name) and e.func.id in ('all', 'any') and len(e.args) == 1 \
             and isinstance(e.args[0], (ast.GeneratorExp, ast.ListComp)) and len(e.args[0].generators) == 1:
         gen = e.args[0].generators[0]
+        inner = env.get(gen.iter.id) if isinstance(gen.iter, ast.Name) else gen.iter
+        if isinstance(inner, (ast.GeneratorExp, ast.ListComp)) and len(inner.generators) == 1 and \
+                isinstance(inner.generators[0].target, ast.Name):
+            # quantification over a filtered / mapped sequence: Q y in (E(x) for x in XS if C(x)): P(y)
+            #   any -> exists x in XS: C(x) and P(E(x))        all -> forall x in XS: not C(x) or P(E(x))
+            ig = inner.generators[0]
+            var = f'${depth}'
+            env_in = dict(env, **{ig.target.id: var})
+            conds = []
+            for c in ig.ifs:
+                c2, env_in = _strip_walrus(c, env_in)
+                conds.append(expr_formula(c2, env_in, depth + 1))
+            elt = _subst(inner.elt, env_in)
+            env2 = dict(env_in)
+            if isinstance(gen.target, ast.Name):
+                env2[gen.target.id] = elt
+            elif isinstance(gen.target, ast.Tuple) and isinstance(elt, ast.Tuple) and len(elt.elts) == len(gen.target.elts) \
+                    and all(isinstance(t, ast.Name) for t in gen.target.elts):
+                for t, v in zip(gen.target.elts, elt.elts):
+                    env2[t.id] = v
+            else:
+                raise AnalysisError(f'boolform: unsupported comprehension target in {ast.unparse(e)}')
+            body = expr_formula(e.args[0].elt, env2, depth + 1)
+            for cond in gen.ifs:
+                c = expr_formula(cond, env2, depth + 1)
+                conds.append(c)
+            for c in conds:
+                body = mk('or', [neg(c), body]) if e.func.id == 'all' else mk('and', [c, body])
+            return ('forall' if e.func.id == 'all' else 'exists', _rename(ig.iter, env), body)
         if not isinstance(gen.target, ast.Name):
             raise AnalysisError(f'boolform: unsupported comprehension target in {ast.unparse(e)}')
         var = f'${depth}'
